@@ -257,7 +257,11 @@ def graph_state(g):
             return ival(ins[0].address)
         return -1
 
-    ed = sorted(set((naddr(e.v[0]), naddr(e.v[1])) for e in g.E()))
+    def mapped(n):
+        a = naddr(n)
+        return 1 if a >= 0 and node_at(g, a) is n else 0
+
+    ed = sorted(set((naddr(e.v[0]), naddr(e.v[1]), mapped(e.v[0]), mapped(e.v[1])) for e in g.E()))
     return {"lay": lay(g.support), "ovl": lay(g.overlay), "hasovl": 0 if g.overlay is None else 1,
             "ed": [list(x) for x in ed]}
 
